@@ -71,7 +71,9 @@ for dp, _, fs in os.walk(ROOT):
         for k, v in cur.items():
             groups.append({"name": k, "snippets": v})
 BAN = re.compile(r'Math\.random|Temporal\.Now|new Date\(\)|Date\.now|performance|toLocale|Intl\.|WeakRef|FinalizationRegistry|\$boa|getTimezoneOffset|while\s*\(\s*true\s*\)|for\s*\(\s*;\s*;\s*\)')
-kept = [g for g in groups if not any(BAN.search(s) for s in g["snippets"])]
+# groups measured (boa_sim harvest-measure) to allocate > 20000 boxes are too heavy for collect-at-every-allocation schedules
+HEAVY = {'vm/tests.rs::long_object_chain_gc_trace_stack_overflow'}
+kept = [g for g in groups if g['name'] not in HEAVY and not any(BAN.search(s) for s in g["snippets"])]
 kept.sort(key=lambda g: g["name"])
 json.dump({"source": "boa-dev/boa core/engine/src tests (pinned tree)", "groups": kept}, open('/verif/corpus/harvest.json', 'w'), indent=0)
 print(len(groups), "groups found,", len(kept), "kept,", sum(len(g["snippets"]) for g in kept), "snippets,", os.path.getsize('/verif/corpus/harvest.json'), "bytes")
